@@ -10,6 +10,7 @@ import (
 	"sync"
 	"time"
 
+	"github.com/f1bonacc1/process-compose/src/admitter"
 	"github.com/f1bonacc1/process-compose/src/app"
 	"github.com/f1bonacc1/process-compose/src/command"
 	"github.com/f1bonacc1/process-compose/src/loader"
@@ -30,6 +31,8 @@ type planCase struct {
 	replicas   map[int]int
 	requested  []int
 	noDeps     bool
+	ns         map[int]string // namespace per node ("" = default)
+	enabledNS  []string       // --namespace selection (empty: all)
 }
 
 // runPlan loads the generated configuration, builds a runner, asks for the order and lets the project
@@ -50,6 +53,9 @@ func runPlan(rec *recWriter, dir string, id string, pc planCase, repeat int) {
 		p.Disabled = pc.disabled[i]
 		p.Foreground = pc.foreground[i]
 		p.Replicas = pc.replicas[i]
+		if pc.ns[i] != "" {
+			p.Extra = append(p.Extra, "    namespace: "+pc.ns[i])
+		}
 		f.Procs = append(f.Procs, p)
 	}
 	path := writeFile(dir, "plan.yaml", f.Render())
@@ -82,11 +88,33 @@ func runPlan(rec *recWriter, dir string, id string, pc planCase, repeat int) {
 	for _, i := range pc.requested {
 		req = append(req, planNames[i])
 	}
+	// processes outside the selected namespaces
+	outside := []string{}
+	if len(pc.enabledNS) > 0 {
+		for i := 0; i < pc.n; i++ {
+			nsi := pc.ns[i]
+			if nsi == "" {
+				nsi = "default"
+			}
+			in := false
+			for _, e := range pc.enabledNS {
+				in = in || e == nsi
+			}
+			if !in {
+				outside = append(outside, planNames[i])
+			}
+		}
+	}
 	for rep := 0; rep < repeat; rep++ {
 		m := map[string]any{"kind": "plan", "id": fmt.Sprintf("%s-r%d", id, rep), "nodes": nodes, "edges": edges,
 			"disabled": dis, "foreground": fg, "replicas": reps, "requested": req, "noDeps": pc.noDeps,
-			"loadErr": false, "runnerErr": false, "runStuck": false, "runSkipped": false, "order": []string{}, "disabledAfter": []string{}, "launched": []string{}, "base": [][]string{}}
-		project, err := loader.Load(&loader.LoaderOptions{FileNames: []string{path}, IsInternalLoader: true})
+			"loadErr": false, "runnerErr": false, "runStuck": false, "runSkipped": false, "order": []string{}, "disabledAfter": []string{}, "launched": []string{}, "base": [][]string{},
+			"outside": outside, "launchedBase": []string{}}
+		lopts := &loader.LoaderOptions{FileNames: []string{path}, IsInternalLoader: true}
+		if len(pc.enabledNS) > 0 {
+			lopts.AddAdmitter(&admitter.NamespaceAdmitter{EnabledNamespaces: pc.enabledNS})
+		}
+		project, err := loader.Load(lopts)
 		if err != nil {
 			m["loadErr"] = true
 			m["err"] = err.Error()
@@ -123,6 +151,7 @@ func runPlan(rec *recWriter, dir string, id string, pc planCase, repeat int) {
 		// run: every launched command exits 0 at once
 		var mu sync.Mutex
 		launched := map[string]bool{}
+		launchedBase := map[string]bool{}
 		app.VerifReset()
 		fakecmd.Reset()
 		app.VerifTraceFn = nil
@@ -131,6 +160,7 @@ func runPlan(rec *recWriter, dir string, id string, pc planCase, repeat int) {
 		app.VerifCommanderFn = func(info app.VerifLaunchInfo) command.Commander {
 			mu.Lock()
 			launched[info.Proc] = true
+			launchedBase[info.Conf.Name] = true
 			mu.Unlock()
 			return fakecmd.New(info.Proc, info.Inst, info.Attempt, nil, fakecmd.Behaviour{ExitMode: "auto", AfterTicks: 0, Code: 0})
 		}
@@ -156,6 +186,14 @@ func runPlan(rec *recWriter, dir string, id string, pc planCase, repeat int) {
 		mu.Unlock()
 		sort.Strings(ls)
 		m["launched"] = ls
+		lb := []string{}
+		mu.Lock()
+		for k := range launchedBase {
+			lb = append(lb, k)
+		}
+		mu.Unlock()
+		sort.Strings(lb)
+		m["launchedBase"] = lb
 		da := []string{}
 		if st, err := runner.GetProcessesState(); err == nil {
 			for _, s := range st.States {
@@ -307,6 +345,14 @@ func PlanMain(args []string) {
 		if r.Intn(3) == 0 {
 			pc.requested = []int{r.Intn(n)}
 			pc.noDeps = r.Intn(3) == 0
+		}
+		if r.Intn(3) == 0 {
+			// namespaces, with a selection of one or two of them
+			pc.ns = map[int]string{}
+			for i := 0; i < n; i++ {
+				pc.ns[i] = []string{"", "", "blue", "green"}[r.Intn(4)]
+			}
+			pc.enabledNS = [][]string{{"default"}, {"blue"}, {"blue", "green"}, {"default", "green"}, {"nosuch"}}[r.Intn(5)]
 		}
 		runPlan(rec, dir, fmt.Sprintf("rnd-%d", k), pc, 1)
 		cases++
